@@ -163,5 +163,58 @@ CHECKS["C07"] = dict(
        "triggers, equalities as two skolemised inclusions); obligations.lock marks regressions of quantified obligations.",
   technique="contract-based deductive verification with loop invariants over an abstract set view (z3, quantifiers) for the interval functions; labelled bounded stand-ins for the class text layer",
   design_ref="DESIGN.md section 8 (C07), Appendix B.3")
+LANGNOTE = ("Relative to R3,R4,R6,R7 about re, CPython's parser as reader of the pattern, the rx2smt translator (cross-checked "
+            "against re on sampled texts each run), z3's regex theory and the derivative-product decision procedure (both back "
+            "ends must agree), and the specification generators in specs/. Unicode-only digits excluded from the texts.")
+CHECKS["C15"] = dict(
+  category="exploration",
+  text="Bounded in (start, end), complete in the text: for each pair of a stated finite set (edge values 0,1,5,9,10,11,19,20,99,100,"
+       "101,109,123,199,900,999,1000 and 2^31-1; thorough adds all pairs < 60 and random pairs < 10^6) the real constructor is run "
+       "and the emitted regex's language of possible matches IN EVERY CONTEXT is proved equal to 'canonical numeral of [start,end], "
+       "not glued to a word character' (extensible: preceded by a non-digit) by regular-language inclusion in both directions; sign "
+       "variants likewise. __Integer.__integer itself (digit loop building nested look-behinds) is outside the solvers' reach for "
+       "symbolic parameters, hence exploration.",
+  note=LANGNOTE, technique="per-parameter complete language decision of the emitted pattern (SMT regex theory + derivative-product procedure), labelled bounded in the parameters",
+  design_ref="DESIGN.md section 8 (C15), 7 (B5)")
+CHECKS["C16"] = dict(
+  category="exploration",
+  text="As C15 for Decimal / UnsignedDecimal / NegativeDecimal: per parameter tuple (ranges x fraction-length bounds x is_extensible) "
+       "the emitted language in every context equals 'integer part of the corresponding Integer pattern (or none when start is 0) . "
+       "min..max digits'; invalid bounds raise the documented exceptions (bounded sample). PositiveDecimal / include_sign: only "
+       "constructed and validated (their sign rules are not documented precisely).",
+  note=LANGNOTE, technique="per-parameter complete language decision of the emitted pattern, labelled bounded in the parameters",
+  design_ref="DESIGN.md section 8 (C16)")
+CHECKS["C17"] = dict(
+  category="exploration",
+  text="Per parameter tuple (all 15 bases x length bounds; Word bounds x is_global x is_extensible; affix lists incl. "
+       "metacharacters) the emitted language in every context equals the documented reference language (Numeral: standalone "
+       "strings of n_min..n_max digits of the base; Word: maximal runs of word characters; Word*: words containing / starting / "
+       "ending with a literal affix); invalid parameters raise the documented exceptions (bounded sample).",
+  note=LANGNOTE, technique="per-parameter complete language decision of the emitted pattern against a reference language, labelled bounded in the parameters",
+  design_ref="DESIGN.md section 8 (C17)")
+
+CHECKS["C03"] = dict(
+  category="proof",
+  text="VCs over every function under contract (combinators, class forms, matching API): every implicit-exception exit (TypeError, "
+       "IndexError, KeyError, AttributeError, ValueError ...) is proved infeasible and every raise is of a documented library class "
+       "under exactly the documented condition, over the enumerated tagged-argument domain (wrong type, bool for int, None, float, "
+       "negative, inverted, bad name, too few arguments) and all integers; emitted texts parse whenever the operands' do. Complete "
+       "finite part: every meta constructor over its flag domain constructs, compiles and exports. Bounded parts (reported "
+       "separately): B1 validity/termination of type inference on emitted texts, B4 get_pattern round trip, B2 class text under hash "
+       "seeds. Two known findings (see known_findings.json).",
+  note=PROOF_NOTE + " Class-layer functions (classes.py) are covered by bounded stand-ins only; repetition bounds >= MAXREPEAT outside the model.",
+  technique="contract-based deductive verification (implicit-exception and raises-iff obligations, z3) + finite construction/compile sweep + labelled bounded stand-ins",
+  design_ref="DESIGN.md section 8 (C03)")
+CHECKS["C20"] = dict(
+  category="proof",
+  text="Frame scan over the whole package on every run (every attribute store, setattr, global, mutating call on a field, store into a "
+       "class-level table is enumerated and must be one of: the constructors' own fields, the compiled-pattern cache in compile()/"
+       "get_compiled_pattern()); frame clauses of the contracts proved by the VC driver (no method writes a field of self or of an "
+       "operand outside its frame); the cache invariant (C11) makes the cache unobservable; results are functions of operand fields "
+       "only. Random histories over shared operands are exercised by the bounded stand-in B20.",
+  note=PROOF_NOTE + " Equivalence of class TEXT across hash seeds is not claimed (sets are equal: B2/B3).",
+  technique="syntactic frame scan of the real source + frame obligations of the contract-based VCs (z3); bounded history stand-in",
+  design_ref="DESIGN.md section 8 (C20)")
+
 NOT_APPLICABLE = {p: PENDING for p in ["C%02d" % i for i in range(1, 21)] if p not in CHECKS}
 
